@@ -26,6 +26,16 @@ WITNESSES = [
                                    "fadd d3, d2, d2"]),
     ("sticky-unknown", "x86", ["movq %rax, 8(%rbx)", "movq %rbx, %rcx", "imulq %rdx, %rcx", "movq %rbx, %rcx",
                                "movq 8(%rcx), %rsi", "addq %rsi, %r12"]),
+    # key `copy-outlives-original`: a copy of the address register taken after the store still names the stored location when
+    # the ORIGINAL register is overwritten beyond reconstruction afterwards (pointer chasing); seeded C06-m3
+    ("copy-outlives-original", "x86", ["movq %rax, 8(%rbx)", "movq %rbx, %rdx", "movq (%rbx), %rbx", "movq 8(%rdx), %rcx",
+                                       "addq %rcx, %r12"]),
+    ("copy-outlives-original", "x86", ["movq %rax, 8(%rbx,%rcx,8)", "movq %rcx, %rdx", "imulq %rsi, %rcx",
+                                       "movq 8(%rbx,%rdx,8), %r9", "addq %r9, %r12"]),
+    ("copy-outlives-original", "aarch64", ["str x1, [x2, #8]", "mov x6, x2", "ldr x2, [x2]", "ldr x3, [x6, #8]",
+                                           "add x9, x3, x3"]),
+    ("copy-outlives-original", "aarch64", ["str x1, [x2, x5, lsl #3]", "mov x6, x5", "mul x5, x5, x7",
+                                           "ldr x3, [x2, x6, lsl #3]", "add x9, x3, x3"]),
 ]
 
 
